@@ -1,5 +1,6 @@
 import Model.Ingress
 import Driver.Ops.Policy
+import Driver.Ops.Relay
 namespace Slimta.Driver
 open Slimta
 
@@ -34,6 +35,11 @@ def ingressOp (args : List String) : String :=
             " handed=" ++ "|".intercalate (q.handed.reverse.map fun (id, r, a) => s!"{id}=" ++ showNats r ++ s!"@{a}") ++
             " active=" ++ showNats (ids.filter fun id => q.s.active.contains id)
     | _, _ => "bad-op"
+  | "proxyhop" :: rest =>
+    -- edge -> ProxyQueue -> SMTP relay -> a next hop scripted as for `relay smtp`; error objects carry 550 / 450
+    let (cfg, s) := relaySetup rest
+    let r := Ingress.proxyHop (fun _ c => match c with | .perm => 550 | _ => 450) cfg s
+    s!"smtp={Edge.smtpSees r} wsgi={Edge.wsgiSees r}"
   | _ => "bad-op"
 
 end Slimta.Driver
